@@ -716,3 +716,12 @@ fn c13_expired_multikey_n3_kf() {
     w |= expired_case([3, 3, 3], [1, 1, 1], true) | expired_case([1, 3, 2], [0, 2, 0], true);
     expired_covers_kf(w);
 }
+
+/// timeout sweep over ONE queue [c1 expired, c2 expired, c3 waits forever] (single instance, exact
+/// Vec stubs): exactly c1 and c2 are reported and removed, c3 stays queued
+// NOT REGISTERED: out of memory at 14 GB also with the exact Vec stubs and fs_array=4096
+// #[kani::proof] #[kani::unwind(8)] + Vec::new / Vec::push / ptr::copy stubs
+fn c13_expired_two_then_waiter() {
+    let w = expired_case([1, 1, 1], [1, 2, 0], false);
+    kani::cover!(w & 2 != 0, "two clients expire at once");
+}
